@@ -94,6 +94,7 @@ type Obligation struct {
 	Output  string
 	File    string
 	ExpectSat bool // cover / canary: expected to be satisfiable
+	BufLen    int  // number of body lines emitted before this obligation (later assumptions are not used)
 }
 
 // ---------------------------------------------------------------------------
@@ -279,7 +280,7 @@ func (g *Gen) oblige(kind, label string, props []string, fn *ssa.Function, guard
 		}
 		name = fmt.Sprintf("%s~%d", base, i)
 	}
-	o := &Obligation{Name: name, Kind: kind, Label: label, Props: props, Func: g.funcKey(g.top), Guard: guard, Goal: goal, GoalSrc: src, Concrete: g.concrete}
+	o := &Obligation{Name: name, Kind: kind, Label: label, Props: props, Func: g.funcKey(g.top), Guard: guard, Goal: goal, GoalSrc: src, Concrete: g.concrete, BufLen: len(g.buf)}
 	if pos.IsValid() {
 		p := g.w.prog.Fset.Position(pos)
 		o.Pos = fmt.Sprintf("%s:%d", strings.TrimPrefix(p.Filename, "/repo/"), p.Line)
